@@ -225,6 +225,10 @@ pub fn check(st: &mut Stats, c: &C) {
             let tol = (ds as f64).abs() * (2f64).powi(-50);
             if !(err <= tol) {
                 st.fail("C16/sub_date/not-the-distance-in-days", format!("{} - {} = {} days, exact {} s", c.a, c.b, r, ds));
+            } else if (c.a - c.b).abs() < (1i64 << 53) && r != (c.a - c.b) as f64 / DAY_US as f64 {
+                // below 2^53 us the microsecond distance is an exact double, so "the exact distance in days" is one
+                // correctly rounded division away: anything else (a result assembled from days + fraction, say) is not it
+                st.fail("C16/sub_date/not-the-correctly-rounded-distance", format!("{} - {} = {:e} days, the exact distance rounds to {:e}", c.a, c.b, r, (c.a - c.b) as f64 / DAY_US as f64));
             } else if ds % 86_400 == 0 && r != (ds / 86_400) as f64 {
                 st.fail("C16/sub_date/whole-days-not-exact", format!("{} - {} = {} days, exact {}", c.a, c.b, r, ds / 86_400));
             }
@@ -327,6 +331,14 @@ pub fn run(ctx: &Ctx, st: &mut Stats) {
             }
         }
     }
+    // differences of a few days with arbitrary times of day (where a double has bits to spare and every bit counts)
+    let nsd = ctx.tier.pick(300, 1_000_000, 10_000_000);
+    ctx.par(st, "differences within +-60 days, arbitrary seconds", false, 0, nsd, |st, _, rng| {
+        let a = rng.range_i64(TS_MIN / SEC, ORA_MAX / SEC);
+        let b = (a + rng.range_i64(-60 * 86_400, 60 * 86_400)).clamp(TS_MIN / SEC, ORA_MAX / SEC);
+        let c = C::ab(K::SubDate, a * SEC, b * SEC);
+        st.eval_h(c.hash(91), &c, check);
+    });
     st.stratum("pool: oracle-date differences", true);
     let sub: Vec<i64> = oras.iter().step_by((oras.len() / ctx.tier.pick(8, 200, 500)).max(1)).copied().collect();
     for &a in &sub {
@@ -363,6 +375,24 @@ pub fn run(ctx: &Ctx, st: &mut Stats) {
         let c = C::af(k, a, f);
         { let (an, td, ks) = crate::primers::g_context(c.a, c.b); crate::primers::eval_sched(st, rng, c.hash(k as u64), &c, &an, td, &ks, check); }
     });
+    cold_threads(st, "history: first call on a fresh thread (sentinel-like operands: -1, 0, 1 ...)", {
+        let mut v = vec![];
+        for o in [0i64, 946_684_800_000_000, -SEC, ORA_MAX, TS_MIN] {
+            for b in [-1i64, 0, 1, -2, 2, 999_999, -999_999, 1_000_000, -1_000_000, i32::MAX as i64, i32::MIN as i64] {
+                v.push(C::ab(K::AddDt, o, b));
+                v.push(C::ab(K::SubDt, o, b));
+                if b.abs() <= 1_000_000 {
+                    v.push(C::ab(K::AddYm, o, b));
+                    v.push(C::ab(K::SubYm, o, b));
+                }
+            }
+            for f in [-1.0f64, 0.0, 1.0, f64::NAN, -0.0, 0.5] {
+                v.push(C::af(K::AddDays, o, f));
+                v.push(C::af(K::TsSubDays, o, f));
+            }
+        }
+        v
+    }, check);
     // history: the same call twice in a row where the sum lands just past either end of the range (the first answer,
     // an error, must also be the second)
     let nrep = ctx.tier.pick(100, 100_000, 1_000_000);
